@@ -13,7 +13,7 @@ from .base import EngineBase, exc_class, is_harness_exc
 from .. import gen
 from ..runner import H, sig_of
 
-KINDS = ("VANISH", "ZOMBIE", "EACCES", "EPERM")
+KINDS = ("VANISH", "ZOMBIE", "EACCES", "EPERM", "HALFGONE")
 ERRNO = {"EACCES": 13, "EPERM": 1}
 
 TREE_WALKERS = ("children", "children_r", "parent", "parents",
@@ -294,6 +294,9 @@ class FaultPoint(EngineBase):
             elif kind == "ZOMBIE":
                 k.schedule_at_access(0, 1, f["k"], {"ev": "zombify",
                                                     "pid": f["pid"]})
+            elif kind == "HALFGONE":
+                k.schedule_at_access(0, 1, f["k"], {"ev": "halfgone",
+                                                    "pid": f["pid"]})
             else:
                 k.schedule_fault(0, 1, f["k"], {"kind": kind,
                                                 "errno": ERRNO[kind]})
@@ -462,15 +465,26 @@ class FaultPoint(EngineBase):
                 continue
             acc = dry.get("acc") or []
             targets = []
+            extra_deny = []
             for (kk, kind, arg, pid, pidrel) in acc:
                 if pidrel and pid is not None and kk < max_k:
                     targets.append((kk, kind, arg, pid))
+                elif not pidrel and kind in ("stat", "lstat") and \
+                        not str(arg).startswith(("/proc", "/sys", "/dev")) \
+                        and kk < max_k:
+                    # a file the process refers to (descriptor target,
+                    # mapped file, cmdline[0]) may be unreadable as well
+                    extra_deny.append((kk, kind, arg, target))
             n = len(acc)
             singles = []
             for (kk, kind, arg, pid) in targets:
                 for fk in KINDS:
-                    if fk in ("VANISH", "ZOMBIE") and pid in (1, 1000):
+                    if fk in ("VANISH", "ZOMBIE", "HALFGONE") and \
+                            pid in (1, 1000):
                         continue
+                    singles.append((kk, kind, arg, pid, fk))
+            for (kk, kind, arg, pid) in extra_deny:
+                for fk in ("EACCES", "EPERM"):
                     singles.append((kk, kind, arg, pid, fk))
             for (kk, kind, arg, pid, fk) in singles:
                 plan = dict(base, faults=[{"k": kk, "kind": fk, "pid": pid}])
